@@ -3,6 +3,7 @@
 set -euo pipefail
 cd /verif/harness
 export CARGO_NET_OFFLINE=true
+export CARGO_TARGET_DIR=/verif/target   # never inherit a caller's target dir: the engine binary must be the one just built
 cargo build --release --offline -p mc-core 2>&1 | tail -3
 cargo build --release --offline -p mc-front 2>&1 | tail -3
 cargo build --release --offline --manifest-path /repo/Cargo.toml -p cgt-cli --target-dir /verif/target/repo 2>&1 | tail -3
